@@ -1161,9 +1161,9 @@ int main(int argc, char **argv)
     Sink sink(a);
     long total;
     void (*fn)(Sink &, const Args &, long);
-    if (a.prop == "C10") total = a.thorough() ? 12000 : 1600, fn = c10::runCase;
-    else if (a.prop == "C11") total = a.thorough() ? 60000 : 12000, fn = c11::runCase;
-    else if (a.prop == "C12") total = a.thorough() ? 20000 : 6000, fn = c12::runCase;
+    if (a.prop == "C10") total = a.thorough() ? 40000 : 6000, fn = c10::runCase;
+    else if (a.prop == "C11") total = a.thorough() ? 600000 : 100000, fn = c11::runCase;
+    else if (a.prop == "C12") total = a.thorough() ? 400000 : 80000, fn = c12::runCase;
     else if (a.prop == "C13") total = a.thorough() ? 300000 : 30000, fn = c13::runCase;
     else
     {
